@@ -84,7 +84,7 @@ pub fn draw_cfg(rng: &mut Rng, profile: Profile, thorough: bool) -> ArrayCfg {
     let alloc_mode = rng.below(3) as u8;
     // now and then a much larger shape with a short history (thorough tier)
     let big = rng.chance(1, if thorough { 24 } else { 32 });
-    let max_dim = if big { rng.range(9, 32) } else if thorough { rng.range(1, 8) } else { rng.range(1, 6) };
+    let max_dim = if big { rng.range(9, 44) } else if thorough { rng.range(1, 8) } else { rng.range(1, 6) };
     let n_steps = if big { rng.range(3, 12) } else if thorough { rng.range(4, 80) } else { rng.range(3, 40) };
     let mut w = [0u32; N_FAM];
     let base: [u32; N_FAM] = match profile {
@@ -474,7 +474,7 @@ pub fn gen_step(rng: &mut Rng, m: &Model, cfg: &ArrayCfg, cap_is_exact: bool) ->
             }
             _ => {
                 let (c, r) = gen_dims(rng, cfg);
-                let prod = c.checked_mul(r).filter(|&p| p <= 64).unwrap_or_else(|| rng.below(8));
+                let prod = c.checked_mul(r).filter(|&p| p <= 2048).unwrap_or_else(|| rng.below(8));
                 let len = if rng.below(1000) < cfg.invalid_pm { prod + 1 - 2 * rng.below(2).min(prod) } else { prod };
                 if rng.chance(1, 3) { Op::FromBox { c, r, len } } else { Op::FromVec { c, r, len, extra_cap: *[0usize, 0, 1, 7].get(rng.below(4)).unwrap() } }
             }
